@@ -52,6 +52,7 @@ open Srtla Srtla.Sys Srtla.Link Srtla.Conn Srtla.Select
 set_option linter.unusedSectionVars false
 
 variable {F : Type} [Scalar F]
+variable {fa : List (Nat × Nat)}
 
 /-- A datagram. -/
 abbrev Bytes := List UInt8
@@ -67,16 +68,45 @@ theorem C01_take_batch (l : FLink F) (now : Nat) :
   exact ⟨h1, h2, h3, h6⟩
 
 /-- `send_connection_batch` puts on the wire exactly the queued payloads, in queue order, each tagged
-with the link's conn id and never a modified byte — or nothing at all, and that only when the queue was
-empty or a send failure was pending for this conn id (then the injection is consumed and `ok = false`).
-The queue is empty afterwards in every case. -/
-theorem C01_send_connection_batch (l : FLink F) (now : Nat) (fn : List Nat) :
-    let r := sendConnectionBatch l now fn
+with the link's conn id and never a modified byte — or only a PREFIX of them (the first
+`failPrefix fa connId …` payloads: what `send_all_datagrams` got out before the call that failed; none of them for
+a plain `failNext` injection, `C01_fail_prefix`), and that only when a send failure was pending for this conn id
+(then the injection is consumed and `ok = false`: the caller treats the WHOLE batch as failed).  The queue is empty
+afterwards in every case.  `fa` is the prefix table of the partial injections (`Sys.failAfter`). -/
+theorem C01_send_connection_batch (fa : List (Nat × Nat)) (l : FLink F) (now : Nat) (fn : List Nat) :
+    let r := sendConnectionBatch fa l now fn
     r.1.queue = [] ∧ r.1.core.connId = l.core.connId ∧
     ((r.2.1 = (l.queue.map (·.1)).map (fun x => (l.core.connId, x)) ∧ r.2.2.1 = true ∧ r.2.2.2 = fn) ∨
-     (r.2.1 = [] ∧ r.2.2.1 = false ∧ l.queue ≠ [] ∧ l.core.connId ∈ fn ∧ r.2.2.2 = fn.erase l.core.connId)) := by
-  obtain ⟨h1, h2, -, -, -, -, h7⟩ := sendConnectionBatch_spec l now fn
+     (r.2.1 = ((l.queue.map (·.1)).take (failPrefix fa l.core.connId (fn.count l.core.connId))).map
+          (fun x => (l.core.connId, x)) ∧
+        r.2.2.1 = false ∧ l.queue ≠ [] ∧ l.core.connId ∈ fn ∧ r.2.2.2 = fn.erase l.core.connId)) := by
+  obtain ⟨h1, h2, -, -, -, -, h7⟩ := sendConnectionBatch_spec (fa := fa) l now fn
   exact ⟨h1, h2, h7⟩
+
+/-- **How much of a batch a failing send puts on the wire** (`failPrefix`, the reading of the two injection
+events): with NO partial injection pending for the conn id (`Ev.failNext` only) nothing goes out; when the conn id
+occurs exactly once in `failNext` and its only partial injection is `(cid, k)`, the first `min k len` datagrams go
+out (`List.take k`); a plain injection pending next to partial ones is consulted first (multiplicity above the
+number of partial entries: nothing goes out). -/
+theorem C01_fail_prefix (fa : List (Nat × Nat)) (cid c k : Nat) :
+    ((∀ e ∈ fa, e.1 ≠ cid) → failPrefix fa cid c = 0) ∧
+    ((fa.filter fun e => e.1 == cid) = [(cid, k)] → failPrefix fa cid 1 = k) ∧
+    ((fa.filter fun e => e.1 == cid).length < c → failPrefix fa cid c = 0) := by
+  refine ⟨fun h => ?_, fun h => ?_, fun h => ?_⟩
+  · have : (fa.filter fun e => e.1 == cid) = [] := by
+      rw [List.filter_eq_nil_iff]
+      intro e he
+      simpa using h e he
+    unfold failPrefix
+    simp [this]
+  · unfold failPrefix
+    simp [h]
+  · unfold failPrefix
+    simp only [List.length_map]
+    rw [if_neg (by omega)]
+
+example : failPrefix [(1, 3), (2, 5), (1, 7)] 1 3 = 0 ∧ failPrefix [(1, 3), (2, 5), (1, 7)] 1 2 = 3 ∧
+    failPrefix [(1, 3), (2, 5), (1, 7)] 1 1 = 7 ∧ failPrefix [(1, 3), (2, 5), (1, 7)] 2 1 = 5 := by decide
 
 /-- `queue_data_packet` appends exactly `(pkt, seq, now)` at the END of the link's queue, leaves the
 core, the probe counter and the regime alone, and asks for a flush iff the new length reaches the
@@ -114,7 +144,10 @@ grows by exactly `appended s ev i` at its END, and then exactly one of
   if something was appended the queue is below the link's regime threshold and below 32;
 * *sent*: the WHOLE queue (old content then the appended item) is put on this link's socket, in queue
   order, byte for byte (`dataWire … = bytesOf (l.queue ++ appended)`), and the queue is empty;
-* *discarded*: the queue is empty, nothing of it went on the wire, and a `LossCause` holds.
+* *discarded*: the queue is empty, at most a PREFIX of it went on the wire (`List.take k`: a send that failed
+  part-way; `k = 0` for a reset or a send that failed before anything went out - whenever the whole content did go
+  out the event is classified *sent* by `Lemmas/ForwardStep.lean: LinkFx.strengthen`, so the cause below is proved
+  for the events that really lose something), and a `LossCause` holds.
 `hnr`: over events / runs that keep the link set (no `Ev.reload`); a reload keeps the whole record of every retained link
 (`Props/SysReload.lean: reload_frame`) and the theorem applies again from the state after it.  A datagram queued on an uplink that a
 reload removes is discarded with it: `Props/SysReload.lean: C01_reload_accounting`. -/
@@ -125,7 +158,9 @@ theorem C01_event_link (s : Sys F) (ev : Ev) (hnd : (ids s.links).Nodup) (hnr : 
       ((l'.queue = l.queue ++ appended s ev i ∧ dataWire ev (step s ev).2 l.core.connId = [] ∧
           (appended s ev i = [] ∨ (l'.queue.length < l'.regime.batchSize ∧ l'.queue.length < 32))) ∨
        (l'.queue = [] ∧ dataWire ev (step s ev).2 l.core.connId = bytesOf (l.queue ++ appended s ev i)) ∨
-       (l'.queue = [] ∧ dataWire ev (step s ev).2 l.core.connId = [] ∧ LossCause s ev i l l')) := by
+       (l'.queue = [] ∧
+         (∃ k, dataWire ev (step s ev).2 l.core.connId = (bytesOf (l.queue ++ appended s ev i)).take k) ∧
+         LossCause s ev i l l')) := by
   obtain ⟨h1, h2⟩ := step_link s ev hnd hnr
   refine ⟨h1, fun i l hl => ?_⟩
   obtain ⟨l', g1, g2, -, -⟩ := h2 i l hl
@@ -845,6 +880,45 @@ example :
       [([], [], [(2, 0, .unique)]), ([0], [], [])] ∧
     ucount 0 exG2 = 1 ∧
     (@run Int fixScalar exSys [.failNext 1, .client 5000 exData]).1.failNext = [1] := by
+  decide +kernel
+
+/-- A send that fails PART-WAY (`Ev.failAfter 1 2`: the threshold flush of link 0 gets two datagrams out, then
+`send_all_datagrams` returns the error).  Three control packets are queued on link 0 (low-activity regime, batch 4);
+the fourth datagram reaches the threshold: the first TWO datagrams of the batch are on the wire, the other two are
+not, the injection is consumed, the caller sees a failed send and tears the link down.  The ghost files tags 0, 1
+under `wire` and tags 2, 3 under `lost` (stamped with event index 4); every tag still has exactly one unique copy;
+the wire bin is the real wire log. -/
+def exEvsPartial : List Ev :=
+  [.failAfter 1 2, .client 5000 exCtl, .client 5001 exCtl, .client 5002 exCtl, .client 5003 exData]
+def exG2p : G Int := @runG Int fixScalar (ginit exSys) exEvsPartial
+
+example :
+    let s3 := (@run Int fixScalar exSys (exEvsPartial.take 4)).1
+    s3.failNext = [1] ∧ s3.failAfter = [(1, 2)] ∧ (s3.links.map (·.queue.length)) = [3, 0] ∧
+    (@step Int fixScalar s3 (.client 5003 exData)).2.wire = [(1, exCtl), (1, exCtl)] ∧
+    (@step Int fixScalar s3 (.client 5003 exData)).1.failNext = [] ∧
+    ((@step Int fixScalar s3 (.client 5003 exData)).1.links.map fun l =>
+        (l.queue.length, l.core.connected, decide (l.core.phase = .registering))) =
+      [(0, false, true), (1, true, false)] := by
+  decide +kernel
+
+example :
+    (exG2p.bins.map fun b =>
+        (b.wire.map (·.tag), b.queued.map (·.tag), b.lost.map fun kx => (kx.1, kx.2.tag, kx.2.kind))) =
+      [([0, 1], [], [(4, 2, .unique), (4, 3, .unique)]), ([], [3], [])] ∧
+    ucount 0 exG2p = 1 ∧ ucount 1 exG2p = 1 ∧ ucount 2 exG2p = 1 ∧ ucount 3 exG2p = 1 ∧
+    @wireLog Int fixScalar exSys exEvsPartial 0 = [exCtl, exCtl] := by
+  decide +kernel
+
+/-- … and with `k` at least the batch length (`Ev.failAfter 1 9`): the WHOLE batch is on the wire (the ghost files
+all four tags under `wire`, nothing is lost), yet the send reported failure and the link is torn down. -/
+example :
+    let evs : List Ev := [.failAfter 1 9, .client 5000 exCtl, .client 5001 exCtl, .client 5002 exCtl, .client 5003 exData]
+    ((@runG Int fixScalar (ginit exSys) evs).bins.map fun b => (b.wire.map (·.tag), b.lost.length)) =
+      [([0, 1, 2, 3], 0), ([], 0)] ∧
+    ((@run Int fixScalar exSys evs).1.links.map fun l => (l.queue.length, l.core.connected)) =
+      [(0, false), (1, true)] ∧
+    (@run Int fixScalar exSys evs).1.failNext = [] := by
   decide +kernel
 
 /-- No link can be chosen (both disconnected): the accepted datagram is filed under `dropped`, and that is
